@@ -429,7 +429,7 @@ func c14CLI(c *Ctx, n int, thorough bool) error {
 		}
 		// flat and nested layouts: several targets share one output root, or
 		// one target's root lies inside another's
-		for _, layout := range []string{"shared-root", "nested-roots", "prefix-siblings"} {
+		for _, layout := range []string{"shared-root", "nested-roots", "prefix-siblings", "nested-reverse"} {
 			sets := [][]string{AllTargets}
 			for k := 0; k < 3; k++ {
 				sets = append(sets, randomHistorySorted(r))
@@ -464,9 +464,70 @@ func c14CLI(c *Ctx, n int, thorough bool) error {
 					}
 				}
 			}
+			// fault: a directory sits where a LATER target wants to create a file,
+			// so that target fails; what the targets before it wrote must stay
+			if layout == "shared-root" || layout == "nested-roots" {
+				ts := AllTargets
+				fi := 1 + r.Intn(len(ts)-1)
+				failing := ts[fi]
+				var fname string
+				for _, n := range sortedKeys(keysOf(alone[failing].subtree(targetDir[failing]))) {
+					if !strings.Contains(n, "/") {
+						fname = n
+						break
+					}
+				}
+				if fname == "" {
+					for _, n := range sortedKeys(keysOf(alone[failing].subtree(targetDir[failing]))) {
+						fname = n
+						break
+					}
+				}
+				dirs := layoutDirs(layout, ts)
+				fdisk := append(append([]DiskEntry{}, disk...), DiskEntry{Path: dirs[failing] + "/" + fname, Kind: "dir"})
+				w := &CLIWorld{Argv: compileArgvDirs(ts, dirs, long, sub, abs), Disk0: fdisk, Sched: s0()}
+				o, err := c.sc.RunCLI(w)
+				if err != nil {
+					return err
+				}
+				c.ev.AddRecord(&o.Rec)
+				c.ev.Count("cli_worlds", 1)
+				c.ev.Fire("fault_directory_where_a_file_is_expected", 1)
+				c.event(fmt.Sprintf("c14cli|%d|%s|obstacle|%s", i, layout, failing), w.Argv, treeSig(o, ""), opSig(o))
+				if !o.TimedOut {
+					for _, t := range ts[:fi] {
+						if d := layoutDiff(alone, o, dirs, ts[:fi], t); len(d) > 0 {
+							c.mu.Lock()
+							c.candidates++
+							dup := c.sigSeen["coarse:C14cli-obstacle|"+t]
+							c.sigSeen["coarse:C14cli-obstacle|"+t] = true
+							c.mu.Unlock()
+							if dup {
+								continue
+							}
+							// confirm once more in a fresh world
+							o2, err := c.sc.RunCLI(w)
+							if err != nil || o2.TimedOut || len(layoutDiff(alone, o2, dirs, ts[:fi], t)) == 0 {
+								continue
+							}
+							rf := &ReplayFile{Property: "C14", Kind: "cli-c14-obstacle", RunSeed: c.Seed, Case: i, DSL: text, Target: t, History: ts[:fi], CLI: w,
+								Expect: map[string]any{"layout": layout, "failing_target": failing, "obstacle": dirs[failing] + "/" + fname}}
+							c.report("C14|cli|"+t+"|obstacle|"+layout, fmt.Sprintf("CLI: when a later target (%s) fails to write (a directory sits at %s), files that target %s had already written in the same invocation are gone or changed: %v", failing, dirs[failing]+"/"+fname, t, clipList(d, 2)), d, rf)
+						}
+					}
+				}
+			}
 		}
 		return nil
 	})
+}
+
+func keysOf(m map[string]TreeEntry) map[string]bool {
+	out := map[string]bool{}
+	for k := range m {
+		out[k] = true
+	}
+	return out
 }
 
 // randomHistorySorted: a random subset (>= 2 targets) in the CLI's fixed order.
